@@ -3,7 +3,7 @@ import vpl, re
 from concurrent.futures import ThreadPoolExecutor
 
 LEVEL = "proof"
-LIBS = ["SigmaArith.vo", "KeyRingLemmas.vo", "SigmaLemmas.vo", "SigmaFsLemmas.vo", "PedersenLemmas.vo"]
+LIBS = ["SigmaArith.vo", "KeyRingLemmas.vo", "SigmaLemmas.vo", "SigmaFsLemmas.vo", "PedersenLemmas.vo", "CutChooseLemmas.vo", "SkcProveLemmas.vo"]
 
 
 def correspond_chunks(res, pid, out, drv, tier, seed, k):
